@@ -431,7 +431,7 @@ class Inject(C.Stream):
         {"mode": "pool", "exprs": CLAUSE_POOL},
         # D18 (open): a string argument containing a double quote reads like a composite of two string matchers
         {"mode": "pool", "exprs": [["any_of", [["starts_with", "a"], ["starts_with", "b"]]], ["starts_with", 'a" or to start with "b']]},
-        # D32 (open): a dict key that is not a str is written like the str of its JSON rendering: {1: "a"} reads like {"1": "a"}
+        # D33 (open): a dict key that is not a str is written like the str of its JSON rendering: {1: "a"} reads like {"1": "a"}
         {"mode": "pool", "exprs": [["equal_to", ["d", [[["i", 1], ["s", "a"]]]]], ["equal_to", ["d", [["1", ["s", "a"]]]]]]},
         # D12 / D13 (fixed)
         {"mode": "pool", "exprs": [["all_of", [["not_", _a], _b]], ["all_of", [["not_", _a], ["not_", _b]]]]},
